@@ -400,6 +400,8 @@ package server
 //@ func (*LockDB).AddMillisecondTimeOut
 //@   requires self != nil && lock != nil && lock.manager != nil && lock.command != nil
 //@   requires C05.unit.ms: lock.command.TimeoutFlag&0x0400 != 0
+//@   at call GetLockQueue assert C05.ms.delay: implies(ghost.nowNano[0] >= 0 && ghost.nowNano[0] < 0x4000000000000000, ms == ghost.nowNano[0] / 1000000 + lock.command.Timeout % MILLISECOND_QUEUE_LENGTH)
+//@   at call LockQueue.Push assert C05.ms.delay: implies(ghost.nowNano[0] >= 0 && ghost.nowNano[0] < 0x4000000000000000, ms == ghost.nowNano[0] / 1000000 + lock.command.Timeout % MILLISECOND_QUEUE_LENGTH)
 //@   ensures C05.armed.ms: !lock.timeouted
 //@   ensures otherLocksSame(lock) && lock.locked == old(lock.locked) && lock.refCount == old(lock.refCount) && lock.manager == old(lock.manager) && lock.command == old(lock.command) && lock.ackCount == old(lock.ackCount) && lock.expried == old(lock.expried) && lock.isAof == old(lock.isAof) && lock.protocol == old(lock.protocol)
 //@   modifies LockQueue.*, Lock.longWaitIndex@lock, Lock.timeouted@lock, MillisecondWaitLockFreeQueue.freeIndex, E_LJPserver_Lock, E_Pserver_Lock, E_Pserver_MillisecondWaitLockQueue, E_int32
@@ -418,6 +420,7 @@ package server
 //@ func (*LockDB).AddMillisecondExpried
 //@   requires self != nil && lock != nil && lock.manager != nil && lock.command != nil && lock.manager.lockDb != nil
 //@   requires C06.unit.ms: lock.command.ExpriedFlag&0x0400 != 0
+//@   at call LockQueue.Push assert C06.ms.delay: implies(ghost.nowNano[0] >= 0 && ghost.nowNano[0] < 0x4000000000000000, ms == ghost.nowNano[0] / 1000000 + lock.command.Expried % MILLISECOND_QUEUE_LENGTH)
 //@   ensures C06.armed.ms: !lock.expried
 //@   ensures otherLocksSame(lock) && lock.locked == old(lock.locked) && lock.refCount == old(lock.refCount) && lock.manager == old(lock.manager) && lock.command == old(lock.command) && lock.ackCount == old(lock.ackCount) && lock.timeouted == old(lock.timeouted) && lock.protocol == old(lock.protocol)
 //@   modifies AofChannel.*, AofLockQueue.next, AofLockQueue.windex, AofLock.*, Aof.freeLockQueueIndex, LockData.aofData, LockManagerData.isAof, LockQueue.*, Lock.data@lock, Lock.expried@lock, Lock.isAof@lock, Lock.longWaitIndex@lock, MillisecondWaitLockFreeQueue.freeIndex, PriorityMutex.*, E_LJPserver_Lock, E_Pserver_AofLock, E_Pserver_Lock, E_Pserver_MillisecondWaitLockQueue, E_int32
